@@ -76,7 +76,7 @@ theorem processArgT_plain (cfg : TCfg) (t : TState) (key : Key) (ai : It)
   unfold processArgT; rw [hs]; rfl
 
 /-- `liftMain` answers `.ok` exactly when the main handler's result does -/
-theorem liftMain_ok {α : Type} {t t' : TState} {r : Res (HState × α)} {a : α}
+theorem liftMain_ok_eq {α : Type} {t t' : TState} {r : Res (HState × α)} {a : α}
     (h : liftMain t r = .ok (t', a)) : r = .ok (t'.main, a) ∧ t' = { t with main := t'.main } := by
   cases r with
   | ok x => obtain ⟨m, b⟩ := x; unfold liftMain at h; cases h; exact ⟨rfl, rfl⟩
